@@ -76,6 +76,8 @@ def run_one(choices, params):
         if r >= 6 and closeplan is None:
             closeplan = {"who": w.pick(("A", "both", "Bhandler")), "at": w.draw(6)}
     hooks = {"A_c": 0, "A_d": 0, "B_c": 0, "B_d": 0, "A_bc": 0, "B_bc": 0}
+    reclose = bool(c.draw(3) == 0)
+    chatty_hook = bool(c.draw(3) == 0)
     info = {"ops": [], "fired": False, "calls": None, "bytes": None, "closefired": False}
     blog = []
 
@@ -98,6 +100,8 @@ def run_one(choices, params):
 
             def on_disconnect(self, conn):
                 hooks["A_d"] += 1
+                if reclose:
+                    conn.close()
 
             def exposed_cb(self, depth, tok):
                 if depth > 0:
@@ -111,6 +115,8 @@ def run_one(choices, params):
 
             def on_disconnect(self, conn):
                 hooks["B_d"] += 1
+                if reclose:
+                    conn.close()        # a hook that closes the connection it is told about: closing again is a no-op
 
             def exposed_echo(self, tok):
                 blog.append(tok)
@@ -146,6 +152,10 @@ def run_one(choices, params):
 
         def bc_a(root):
             hooks["A_bc"] += 1
+            if chatty_hook:
+                # the user's before_closed hook says goodbye to the peer; if the peer is gone that fails, and close() still
+                # has to release everything
+                root.echo(-2)
 
         def bc_b(root):
             hooks["B_bc"] += 1
